@@ -251,6 +251,64 @@ def e2e(ctx: Ctx):
     ctx.sample({"e2e": {"string": items[0][0][0], "placement": items[0][1], "setup": items[0][2]}})
 
 
+LOCALES = {"utf8": {"LC_ALL": "C.UTF-8", "LANG": "C.UTF-8"},
+           "c_no_utf8_mode": {"LC_ALL": "C", "LANG": "C", "PYTHONUTF8": "0", "PYTHONCOERCECLOCALE": "0"},
+           "posix_utf8_mode": {"LC_ALL": "POSIX", "LANG": "POSIX", "PYTHONUTF8": "1"},
+           "latin1_name": {"LC_ALL": "en_US.ISO-8859-1", "LANG": "en_US.ISO-8859-1", "PYTHONUTF8": "0", "PYTHONCOERCECLOCALE": "0"}}
+LOCALE_VALUES = ["gr\xfc\xdfe", "\u65e5\u672c\u8a9e", "smile \U0001f600 end", "first line \xe4\nsecond line \u0431\n\u4e09", "plain ascii", ["\xe9", {"k\xf6y": "v\xe4lue\nnext"}],
+                 ("\u03b1\u03b2\u03b3", "tab\there"), "\xa0nbsp \xad soft", {"\xfc": 1}]
+IDENTITY_CMD = "/venv/bin/python -c \"import sys; sys.stdout.buffer.write(sys.stdin.buffer.read())\""
+
+
+def run_locale_session(item):
+    """a real session in a process whose locale / UTF-8 mode is given by the environment; the test file itself is pure ASCII (the values come from vals.py)"""
+    import shutil
+    loc, fmt = item
+    d = driver.scratch_dir()
+    try:
+        files = {"vals.py": "VALUES = " + ascii(LOCALE_VALUES) + "\n",
+                 "test_values.py": "from inline_snapshot import snapshot\nfrom vals import VALUES\n\n\n"
+                 + "\n\n".join(f"def test_{i}():\n    assert VALUES[{i}] == snapshot()\n" for i in range(len(LOCALE_VALUES)))}
+        if fmt:
+            files["pyproject.toml"] = "[tool.inline-snapshot]\nformat-command = '" + IDENTITY_CMD + "'\n"
+        driver.write_project(d, files)
+        r = driver.run_pytest(d, ["--inline-snapshot=create"], env=dict(LOCALES[loc], PYTHONIOENCODING="utf-8"))
+        after = (d / "test_values.py").read_bytes().decode("utf-8", "replace")
+        bad = []
+        try:
+            tree = ast.parse(after)
+            for n in tree.body:
+                if isinstance(n, ast.FunctionDef):
+                    i = int(n.name[5:])
+                    call = [c for c in ast.walk(n) if isinstance(c, ast.Call) and isinstance(c.func, ast.Name) and c.func.id == "snapshot"][0]
+                    if not call.args:
+                        bad.append((i, "snapshot still empty"))
+                        continue
+                    got = ast.literal_eval(call.args[0])
+                    if got != LOCALE_VALUES[i] or type(got) is not type(LOCALE_VALUES[i]):
+                        bad.append((i, f"written {ast.get_source_segment(after, call.args[0])!r} evaluates to {got!r}"))
+        except Exception as e:  # noqa
+            bad.append((-1, f"rewritten file unusable: {type(e).__name__}: {e}"))
+        return {"bad": bad, "rc": r["rc"], "tail": (r["stdout"][-1200:] + r["stderr"][-400:]), "infra": r.get("infra_error")}
+    finally:
+        shutil.rmtree(d, ignore_errors=True)
+
+
+def locale_sessions(ctx: Ctx):
+    from ..core import tmap
+    items = [(loc, fmt) for loc in LOCALES for fmt in (False, True)]
+    for (loc, fmt), o in zip(items, tmap(run_locale_session, items)):
+        ctx.count(("locale", loc, fmt), True)
+        ctx.dist(f"locale.{loc}.{'fmtcmd' if fmt else 'black'}")
+        if o.get("infra"):
+            raise RuntimeError("pytest session timed out twice (infrastructure)")
+        if o["bad"]:
+            i, why = o["bad"][0]
+            ctx.report(f"string {LOCALE_VALUES[i]!r} created in a session with locale setting {loc} ({'format-command' if fmt else 'black'}): {why}",
+                       {"kind": "locale", "locale": loc, "fmt": fmt, "output": o["tail"]})
+    ctx.coverage["oracle"]["locale_sessions"] = len(items)
+
+
 def run(ctx: Ctx):
     ctx.coverage["rule"] = (
         "A: every string over a 17-symbol adversarial alphabet (quotes, backslash, LF, CR, TAB, NUL, DEL, soft hyphen, U+2028, astral, lone surrogate, blanks) "
@@ -258,11 +316,13 @@ def run(ctx: Ctx):
         "value_to_token writes vs Model/StrLit.v evaluated in Coq with the printable table regenerated from the running interpreter, and ast.literal_eval of it; "
         "bytes likewise; the decoder model vs ast.literal_eval on alternative spellings. B: end to end: create runs writing each string as top-level value and "
         "nested in list / dict (value and key) / tuple / dataclass, with black, with black blocked, with a format-command; the argument found in the rewritten file "
-        "must evaluate to the string. non-trivial = length >= 2 and needs an escape / quote choice / triple quotes")
+        "must evaluate to the string. C: real create sessions in processes with a UTF-8 locale, the C locale without UTF-8 mode, POSIX with UTF-8 mode and a latin-1 locale name, "
+        "with black and with a format-command: non-ASCII strings (top level, nested, keys, triple-quoted) read back identically. non-trivial = length >= 2 and needs an escape / quote choice / triple quotes")
     ctx.assumptions += ["decoder model: raw CR / NUL are never emitted (checked: chr(13), chr(0) not printable)", "black and the format-command are exercised, not modelled"]
     proof_step(ctx)
     corr_literals(ctx)
     e2e(ctx)
+    locale_sessions(ctx)
 
 
 def replay(ctx: Ctx, data):
@@ -277,6 +337,10 @@ def replay(ctx: Ctx, data):
         except Exception as e:  # noqa
             print(type(e).__name__, e)
             return False
+    if k == "locale":
+        o = run_locale_session((case["locale"], case["fmt"]))
+        print(o)
+        return not o["bad"]
     if k == "e2e":
         strings = ["".join(chr(c) for c in s) for s in case["strings"]]
         o = run_e2e((strings, case["placement"], case["setup"], case.get("mode", "create")))
